@@ -189,6 +189,18 @@ func (e *Env) evalIdent(name string) *Value {
 		return mathVal(c)
 	}
 	if gv, ok := g.W.C.Ghosts[name]; ok {
+		if gv.T.Kind == "set" {
+			et, err := g.W.lookupType(gv.T.Elem, gv.PkgPath)
+			if err != nil {
+				return e.fail("%v", err)
+			}
+			es := g.W.shapes.shape(et)
+			if len(es) != 1 {
+				return e.fail("ghost set %s: composite element type", name)
+			}
+			srt := arrSort(es[0].Sort, sBool)
+			return &Value{T: et, L: []string{g.compTerm(e.st, "G|"+gv.Name+"|", srt)}, SetElem: es[0].Sort}
+		}
 		t, err := e.ghostType(gv)
 		if err != nil {
 			return e.fail("%v", err)
